@@ -564,6 +564,39 @@ Section C04_whole_state_lift.
   Qed.
 End C04_whole_state_lift.
 
+
+(** *** the moist classes through the whole-state model: MoistPrimitiveEquations.explicit_terms (cloud = false) and
+    MoistPrimitiveEquationsWithCloudMoisture.explicit_terms (cloud = true) as executed are, coefficient by coefficient,
+    the ModalAssembly instance with the virtual temperature, the moist adiabatic term and the humidity corrections that
+    C04_*_invariance_moist are about *)
+Section C04_whole_state_moist.
+  Context {F : Type} {o : Ops F} {Fc : FieldC o}.
+  Variable g : @HGrid F.
+  Variable c : @PEcfg F.
+  Variable m : @Moist F.
+  Variable grav : F.
+  Variable orog : nat -> nat -> F.
+  Theorem C04_whole_state_moist_is_assembly (cloud : bool) (s : @State F) k a l :
+    (k < cK c)%nat -> (a < hR g)%nat -> (l < hL g)%nat ->
+    let d := diagnostic_state g (cK c) s in
+    let md := moist_diag g (cK c) s in
+    let X := X_of g d in
+    let rt := rt_full g cloud c m d in
+    let q := trn d 0 in
+    let gqx := gq_of (m_gqx md) in let gqy := gq_of (m_gqy md) in
+    let lapn := fun p : Wi => m_lap md (fst p) (snd p) in
+    let E := explicit_terms_full_moist g cloud c m grav orog s in
+    s_vort E k a l
+    = vort_tendency_explicit Wi Wi (toM_c g) (curlc_c g) (clip_c g) c X rt
+                             (fun w' => humidity_curl_modal Wi Wi (toM_c g) c m X gqx gqy k w') k (a, l) /\
+    s_div E k a l
+    = div_tendency_explicit Wi Wi (toM_c g) (divc_c g) (lap_c g) (clip_c g) c grav X rt (unc orog)
+                            (fun w' => humidity_div_modal Wi Wi (toM_c g) (lap_c g) c m X q gqx gqy lapn k w') k (a, l) /\
+    s_temp E k a l = temp_tendency_explicit_moist Wi Wi (toM_c g) (divc_c g) (clip_c g) c m X q k (a, l) /\
+    s_lnps E a l = lnps_tendency_explicit_c g c X (a, l).
+  Proof. exact (explicit_terms_full_moist_is_assembly g c m grav orog cloud s k a l). Qed.
+End C04_whole_state_moist.
+
 (** *** non-vacuity of the whole-state theorems: a concrete toy grid and state over Qc *)
 (** toy zonal "sphere" over Qc: M = 1 (R = 1), L = 3, one longitude, two latitudes mu = -1/2, +1/2 with weights 1/2;
     basis values p0 = 1, p1 = mu / (1/2), p2 = 0 at the nodes; recurrence weights chosen so that the
@@ -778,3 +811,4 @@ Print Assumptions C04_whole_state_resolvent_hyps_satisfiable.
 Print Assumptions C04_whole_state_is_assembly_replay.
 Print Assumptions C04_whole_state_split_invariance.
 Print Assumptions C04_whole_state_split_hyps_satisfiable.
+Print Assumptions C04_whole_state_moist_is_assembly.
